@@ -147,6 +147,17 @@ def pandas_sequence(chk, r, active_name, length, tmp):
                 if any(p != act for p in per) or rd._meta.geometry.name != act:
                     chk.violation("active/read_parquet_dask-geometry-not-honoured", dict(rep, history=hist, partitions=per, requested=act)); return
                 new = rd.compute(); op = ["rows"]
+                # geometry= together with bounds=: the partitions are pruned by the extents of the requested column, so no row whose
+                # *requested* geometry intersects the box may be lost (and the requested column is still the active one)
+                from spatialpandas import GeoDataFrame
+                for box in ((-3, -3, 3, 3), (0, 0, 40, 40)):
+                    rb = read_parquet_dask(path, geometry=act, bounds=box)
+                    got_b = rb.compute()
+                    full = GeoDataFrame(new).set_geometry(act)
+                    hit = set(map(str, full.index[full[act].array.intersects_bounds(box)]))
+                    if not hit <= set(map(str, got_b.index)) or rb._meta.geometry.name != act:
+                        chk.violation("active/read_parquet_dask-geometry-with-bounds-loses-rows", dict(rep, history=hist, requested=act, box=list(box),
+                                                                                                      lost=sorted(hit - set(map(str, got_b.index)))[:6])); return
                 shutil.rmtree(path, ignore_errors=True)
             elif choice == "subset_keep":
                 if act == "N":
@@ -248,6 +259,42 @@ def dask_level(chk, r, tmp):
         chk.violation(f"active/dask-op-raises-{common.err_kind(e)}", dict(rep, error=repr(e)[:300]))
 
 
+def parquet_geometry_and_bounds(chk, r, tmp):
+    """read_parquet_dask(geometry=g, bounds=box): the requested column g is the active one *for the pruning too* - two geometry columns
+    whose partitions lie at opposite ends (one runs left to right, the other right to left), every column requested in turn"""
+    import dask.dataframe as dd
+    from spatialpandas import GeoDataFrame
+    from spatialpandas.io import read_parquet_dask
+    n = 12
+    a_pts = [[i, r.randint(0, 3)] for i in range(n)]
+    b_pts = [[100 - 8 * i, r.randint(0, 3)] for i in range(n)]
+    for first in ("a", "b"):
+        cols = {"v": list(range(n))}
+        for name in ((first, "b" if first == "a" else "a")):
+            cols[name] = geo.make_array("point", a_pts if name == "a" else b_pts, "float64")
+        df = GeoDataFrame(cols)
+        path = os.path.join(tmp, f"gb_{first}.parq")
+        dd.from_pandas(df, npartitions=3).to_parquet(path)
+        for req in ("a", "b"):
+            for box in ((-1, -1, 3, 5), (60, -1, 110, 5), (8, -1, 12, 5), (0, -1, 30, 5)):
+                rep = dict(api="read_parquet_dask(geometry=, bounds=)", first_geometry_column=first, requested=req, box=list(box))
+                try:
+                    rb = read_parquet_dask(path, geometry=req, bounds=box)
+                    got = rb.compute()
+                except Exception as e:  # noqa: BLE001
+                    chk.violation(f"active/read_parquet_dask-geometry-with-bounds-raises-{common.err_kind(e)}", dict(rep, error=repr(e)[:300])); return
+                chk.evaluated(n)
+                pts = a_pts if req == "a" else b_pts
+                hit = {i for i in range(n) if box[0] <= pts[i][0] <= box[2] and box[1] <= pts[i][1] <= box[3]}
+                if not hit <= set(int(x) for x in got["v"]) or rb._meta.geometry.name != req or (len(got) and getattr(got, "_geometry", None) != req):
+                    chk.violation("active/read_parquet_dask-geometry-with-bounds-prunes-by-another-column",
+                                  dict(rep, lost=sorted(hit - set(int(x) for x in got["v"])), kept=sorted(int(x) for x in got["v"]),
+                                       active_after=str(rb._meta.geometry.name))); return
+                chk.nontriv(hash(("geometry+bounds", first, req, box)))
+        shutil.rmtree(path, ignore_errors=True)
+    chk.count("parquet:geometry+bounds")
+
+
 def run_cases(chk, tier):
     import dask
     dask.config.set(scheduler="synchronous")
@@ -256,6 +303,7 @@ def run_cases(chk, tier):
     try:
         init_rules(chk, r)
         dask_level(chk, r, tmp)
+        parquet_geometry_and_bounds(chk, r, tmp)
         for k in range(40 if tier == "quick" else 500):
             active = ("pt", "pg", "geometry", "pt")[k % 4]
             pandas_sequence(chk, r, active, 5 if tier == "quick" else 10, tmp)
